@@ -42,6 +42,10 @@ CHECKS = {
             "Decides for every history and every lookup string the structural necessary conditions: only sanctioned functions write id maps; StoreFor::remove deletes exactly the removed item's own id (provenance of the HashMap key) before the tombstone; no liveness test of a store slot ignores tombstones; the temporary-id parser has no reachable panic source and resolve_id checks the kind prefix; the id-map insertion is confined to the branch where has(id) is false and generate_id retries; reindex() remaps each id map with the gap table of its own store, the shift convention of gaps() and Handle::reindex agree (evaluated on the equality case), and every live index mentioning a renumbered handle type must be remapped (5 known findings: reindex() is incomplete).",
             "trusts rustc MIR/syn and the owners table; the arithmetic of compaction beyond the gap convention and the remapping of handles stored inside annotations are not decided",
             "DESIGN.md section 4 C03", "mir+syn"),
+    "C04": ("proof", "formula extraction from the syntax tree of the offset constructors / reporters and exhaustive evaluation over every cursor combination on small texts (finite decision procedure for piecewise-linear guard trees); provenance of stored selections (MIR); inventory of TextSelection literal sites",
+            "For every pair of cursors of either alignment (in range, out of range, inverted, zero-width) on texts of length 0..3 (0..5 thorough), and every parent selection: the three constructors accept an offset exactly when it denotes 0 <= begin <= end <= length of the addressed text (resource or parent annotation) and then resolve to exactly those positions; every offset reported by Selector::offset_with_mode and TextSelection::relative_offset in each of the four modes has non-positive end-aligned cursors and re-resolves (through the library's own extracted resolver) to the same range; the cursor-kind to OffsetMode map is the identity. Structurally: TextSelection values are built only inside the four reviewed functions and everything AnnotationStore::selector stores comes from a validating constructor.",
+            "trusted: syn, the evaluator vocabulary (anything else is reported as not discharged), the model of an empty position index, the piecewise-linear small-model argument; that the selected text equals those codepoints is C12's share",
+            "DESIGN.md section 4 C04, A7", "syn+mir"),
 }
 
 NA = {
